@@ -215,6 +215,11 @@ def jobs_for(pid, rep):
             for i in range(30 if thorough else 8):
                 g = gen.Gen(rng.randrange(1 << 30), focus=focus, handles=0.0)
                 add(g.history(g.r.choice([8, 14]), p_read=0.2), i % 2, {"io": True, "symlink": True})
+            # access mode "w+": the file is emptied when the database is opened, never by a rewrite later on
+            for i in range(30 if thorough else 8):
+                g = gen.Gen(rng.randrange(1 << 30), focus=focus, handles=0.0)
+                add(g.history(g.r.choice([8, 14]), p_read=0.2), i % 2, {"io": True, "mode": "w+", "prefill": True,
+                                                                        "prefill_points": prefill_points(g.r.choice([0, 2]), g)})
             # append-only access modes: every stored point must be on file when the insert returns
             for i in range(30 if thorough else 8):
                 g = gen.Gen(rng.randrange(1 << 30), focus={"insert": 10, "insert_multiple": 4, "remove": 0, "update": 0, "update_all": 0, "drop": 0, "remove_all": 0, "reindex": 0}, handles=0.0)
@@ -225,6 +230,26 @@ def jobs_for(pid, rep):
         for i in range(nh):
             g = gen.Gen(rng.randrange(1 << 30), focus={"insert": 5, "remove": 5, "update": 4, "update_all": 1, "drop": 2, "reindex": 1, "fail": 0.3, "bad": 0.3, "repeat": 0.6}, handles=0.2)
             add(g.history(g.r.choice([10, 18, 28]), p_read=0.55), i % 2, {"io": True})
+        # updates to the value a point already holds, given in the number's other representation (0 / -0.0, 1 / 1.0), static and
+        # through callables, directly and as an immediate repeat: equal values, so nothing may be written
+        for i in range(200 if thorough else 16):
+            g = gen.Gen(rng.randrange(1 << 30), handles=0.0)
+            ops, t = [], 0
+            for _ in range(g.r.choice([2, 3, 4])):
+                p = g.point(t)
+                p["fd"][0] = g.r.choice([2, 3, 2, 0])       # plain theme: ranks 2 and 3 are the numbers 0 and 1
+                ops.append({"op": "insert", "p": p, "m": concretise.NONE, "compact": 0})
+                t += 1
+            for rnd in range(3):
+                u = {"tk": 0, "tv": 0, "mk": 0, "mv": 0, "tgk": 0, "tgv": [], "fdk": g.r.choice([1, 2, 4]), "fdv": [g.r.choice([2, 3]), -2, -2],
+                     "utg": [], "ufd": [], "alt": g.r.randrange(2)}
+                tq = {"k": "field", "key": 1, "key2": 0, "mf": 0, "op": g.r.choice(["eq", "le", "ge"]), "v": u["fdv"][0], "tf": 0}
+                ops.append({"op": "update", "q": tq, "m": concretise.NONE, "u": u, "fail": 0})
+                ops.append({"op": "__repeat__"})
+                if rnd == 1:
+                    ops.append({"op": "update_all", "u": dict(u, alt=1 - u["alt"]), "fail": 0})
+                    ops.append({"op": "update_all", "u": u, "fail": 0})
+            add(ops, i % 2, {"io": True})
         # access modes
         for i in range(600 if thorough else 24):
             g = gen.Gen(rng.randrange(1 << 30), focus={"insert": 3, "remove": 3, "update": 3, "update_all": 1, "drop": 2, "remove_all": 2, "reindex": 1}, handles=0.2)
@@ -247,7 +272,7 @@ def real_kills(recorded, jobs, n, rng):
     byid = {j[0]: j for j in jobs}
     for t in recorded:
         job = byid[t["id"]]
-        if job[7].get("prefill") or job[7].get("mode"):
+        if job[7].get("prefill") or job[7].get("mode") or job[7].get("symlink"):
             continue
         for j, e in enumerate(t["events"]):
             if "io" in e and e["io"]["counted"] and not e["exc"] and e["a"]["op"] not in traces.READ_C01 | traces.READ_C07:
@@ -257,15 +282,19 @@ def real_kills(recorded, jobs, n, rng):
     out, kills, mism = [], 0, []
     scratch = tlc.mkscratch("kill-")
     try:
-        th = concretise.Theme()
+        import themes
         for (t, j, k) in cands[:n]:
+            jopts = byid[t["id"]][7]
+            th = themes.get(jopts.get("theme") or "plain")
+            csvo = dict(jopts.get("csv") or {})
             d0 = os.path.join(scratch, "k%d" % kills)
             os.makedirs(os.path.join(d0, "tmp"))
             path = os.path.join(d0, "db.csv")
             ops = [e["a"] for e in t["events"]]
             spec = os.path.join(d0, "job.json")
             with open(spec, "w") as fh:
-                json.dump({"repo": common.REPO, "path": path, "tmpdir": os.path.join(d0, "tmp"), "ai": t["auto_index"], "ops": ops, "j": j, "k": k}, fh)
+                json.dump({"repo": common.REPO, "path": path, "tmpdir": os.path.join(d0, "tmp"), "ai": t["auto_index"], "ops": ops, "j": j, "k": k,
+                           "theme": jopts.get("theme") or "plain", "csv": csvo}, fh)
             p = subprocess.run([common.PY, os.path.join(common.VERIF, "harness", "killchild.py"), spec], stdout=subprocess.PIPE, stderr=subprocess.PIPE,
                                env=dict(os.environ, PYTHONHASHSEED="0"), timeout=120)
             if p.returncode != 9:
@@ -274,7 +303,7 @@ def real_kills(recorded, jobs, n, rng):
             kills += 1
             data = open(path, "rb").read() if os.path.exists(path) else b""
             dd = driver.Db.__new__(driver.Db)
-            dd.th, dd.ntk, dd.nfk, dd.csv_opts = th, 3, 3, {}
+            dd.th, dd.ntk, dd.nfk, dd.csv_opts = th, 3, 3, csvo
             left = dd.decode_bytes(data)
             ev = dict(t["events"][j])
             io = dict(ev["io"])
@@ -316,6 +345,10 @@ def run(pid):
         for t in extra:
             jobs.append((t["id"], "csv", t["auto_index"], [], [], core.NTK, core.NFK, {}))
         recorded = recorded + extra
+    for t in traces.prefill_traces(recorded):
+        main = next(j for j in jobs if j[0] == t["id"].split("~")[0])
+        jobs.append((t["id"], "csv", 0, [], [], core.NTK, core.NFK, {k: v for k, v in main[7].items() if k in ("csv", "theme")}))
+        recorded = recorded + [t]
     verdicts, js = traces.judge(recorded)
     byid = {t["id"]: t for t in recorded}
     other = {}
